@@ -292,6 +292,7 @@ func checkC16(c *Ctx, r *Report) {
 		}
 		r.check(len(problems) == 0, "C16.R3.read-only", name, c.pos(f.Pos()), "no write reachable from the read-only arguments", "%s", strings.Join(uniqStrings(problems), "; "))
 	}
+	c16CopyTo(c, r, "C16.R1.copyto")
 }
 
 // witness names one value through which rt entered the set (for diagnosis): the first store into an allocation
